@@ -40,6 +40,12 @@ pub fn write(
         .filter(|(k, _)| !k.starts_with("fault_") && !k.starts_with("sched_"))
         .map(|(k, v)| (k.clone(), serde_json::json!(v)))
         .collect();
+    let miri: serde_json::Value = std::env::var("VPSIM_EXTRA_EVIDENCE")
+        .ok()
+        .filter(|p| !p.is_empty())
+        .and_then(|p| std::fs::read_to_string(p).ok())
+        .and_then(|s| serde_json::from_str(&s).ok())
+        .unwrap_or(serde_json::Value::Null);
     let ev = serde_json::json!({
         "property_id": prop,
         "tier": tier,
@@ -63,6 +69,7 @@ pub fn write(
             "worker_restarts_after_hang_or_crash": agg.worker_restarts,
             "known_findings_matched": known,
             "components": props::components(prop),
+            "miri_layer": miri,
             "exhaustive": false
         },
         "assumptions": props::assumptions(prop),
